@@ -5,7 +5,7 @@ an allocation failure or the run time of compiled code.  The check therefore has
 
  1. PROOF (Properties/C11.v): for the modelled functions every Rust panic site is an explicit
     RPanic outcome and the model is proved total / panic-free: threshold_ctor_total, lex_total,
-    planner_total (+ planner_refuted: the code as it stands panics, DESIGN 10-f),
+    planner_total, planner_has_key_total (the code as written after the repair of DESIGN 10-f),
     pre_order_iter_total.  The models are tied to the compiled code on every run: the graph of
     the real functions on generated points (Tables/RobustCasesGen.v, from `verif-harness robust
     models`) is compared with the models inside Coq (Tables/RobustCasesCheck.v, vm_compute).
@@ -188,15 +188,17 @@ def models_tie(rep, hbin, seed):
     flat = re.sub(r"\s+", " ", c2.stdout)
     ok = c2.returncode == 0 and "= ([], [], [], [], [])" in flat
     mv = re.search(r"= (\d+)(?:%N)? : N", flat)
-    variant = {"1": "as coded (DESIGN 10-f: panics on an empty derivation path; planner_refuted applies)",
-               "2": "repaired (planner_total applies)"}.get(mv.group(1) if mv else "0", "neither model")
-    rep.coverage["planner_variant"] = variant
+    regress = {"0": "equals the model of the code as written (planner_total)",
+               "1": "equals the code BEFORE /repo 540253fb: the repair of DESIGN 10-f (len - 1 on an empty derivation path) has been lost",
+               "2": "equals neither the current nor the pre-repair model"}.get(mv.group(1) if mv else "?", "unknown")
+    rep.coverage["planner_graph"] = regress
     if not ok:
         # on-break: the differing rows are printed by the check itself (input, implementation, model);
         # a row where the IMPLEMENTATION panics is a failing input of the property itself
         mm = re.search(r"= \((.*)\) : list", flat)
         body = (mm.group(1) if mm else (c2.stderr or c2.stdout))[-3000:]
-        impl_panics = re.findall(r"\(\(\[[^\]]*\], \[[^\]]*\]\), \(\d, \d, 2\)\)", flat)
+        impl_panics = ["planner: key path [%s], asset path [%s] (fingerprint match %s, ecdsa %s): the implementation panics" % m
+                       for m in re.findall(r"\(?\(?\[([0-9; ]*)\], \[([0-9; ]*)\]\)?, \((\d), (\d), 2\)", flat)]
         thr_panics = re.findall(r"\(\d+, \d+, \d+, \((?:\d, ){0,4}2", flat)
         lex_panics = ["script bytes " + x for x in re.findall(r"\(\[([0-9; ]*)\], \(2, 0\)", flat)]
         impl_panics = impl_panics + lex_panics
@@ -205,6 +207,7 @@ def models_tie(rep, hbin, seed):
                       {"property": "C11", "broken_tie": "Tables/RobustCasesCheck.v: robust_mismatches = ([],[],[],[],[])",
                        "differing_rows (input, implementation, model)": body,
                        "implementation_panics_on": (impl_panics + thr_panics)[:5],
+                       "planner_graph": regress,
                        "replay": "python3 tools/check.py C11"}, found_input=found)
     return ok, rows
 
